@@ -9,6 +9,50 @@ from vlib import common
 from vlib.common import ToolError
 
 
+def weights_part(pid, tier, d, verdict):
+    """the vrp side of the map's input: weight vectors of real solutions (empty, constructed, cut to one tour), judged by JudgeWeights.tla"""
+    import random
+    from vlib import pgen
+    rnd = random.Random(common.seed() * 1009 + 3)
+    n = 60 if tier == 'quick' else 1500
+    cases = [pgen.make_case(rnd.randrange(1 << 30), rnd.choice(['tiny', 'small', 'small', 'medium'])) for _ in range(n)]
+    fin, fout = os.path.join(d, 'weights-cases.ndjson'), os.path.join(d, 'weights-results.ndjson')
+    common.write_ndjson(fin, [{'id': c['id'], 'problem': c['problem'], 'matrices': c['matrices']} for c in cases])
+    common.run_bin('weights', ['--in', fin, '--out', fout], timeout=3000, log=os.path.join(d, 'weights.log'), package='vh-core')
+    res = [r for r in common.read_ndjson(fout) if r['status'] != 'invalid']
+    if len(res) < n // 2:
+        raise ToolError('weights harness answered %d of %d' % (len(res), n))
+    cans = []
+    base = next((r for r in res if r['status'] == 'ok' and len(r['variants']) >= 2 and r['variants'][1]['tours'] >= 1 and all(r['variants'][1]['finite'])), None)
+    if base:
+        c = copy.deepcopy(base); c['variants'][1]['finite'][11] = False; cans.append((c, 'WeightsFiniteWithTours'))
+        c = copy.deepcopy(base); c['variants'][1]['len'] = 14; cans.append((c, 'WeightsOfInputDimension'))
+        c = copy.deepcopy(base); c['status'] = 'panic'; cans.append((c, 'NoPanic'))
+    fj = os.path.join(d, 'weights-judge.ndjson')
+    common.write_ndjson(fj, res + [c[0] for c in cans])
+    jr = common.tlc('JudgeWeights', env={'RECS': fj}, workers=1, name=pid + '-judgew', timeout=3000)
+    if jr.distinct != len(res) + len(cans):
+        raise ToolError('weights judge walked %d of %d' % (jr.distinct, len(res) + len(cans)))
+    got = collections.defaultdict(set)
+    for name, idx, _ in jr.fails:
+        got[int(idx)].add(name)
+    for k, (c, expect) in enumerate(cans):
+        if expect not in got[len(res) + k + 1]:
+            raise ToolError('weights judge vacuity: %s not rejected' % expect)
+    for name, idx, rid in jr.fails:
+        i = int(idx)
+        if i > len(res):
+            continue
+        r = res[i - 1]
+        bad = [(v['tours'], [k for k, f in enumerate(v['finite']) if not f], v['len']) for v in r['variants']]
+        verdict.add('C19/%s/%s' % (name, 'solution-without-tours' if name == 'WeightsFiniteWithoutTours' else 'vrp-solution'),
+                    'problem %s: (tours, non-finite weight indices, dimension) per variant %s %s' % (rid, bad, r.get('error', '')[:100]), {'case': next(c for c in cases if c['id'] == rid), 'observed': r})
+    if not base and not verdict.violations:
+        raise ToolError('no constructed solution with finite weights to corrupt')
+    return {'problems': len(res), 'variants': sum(len(r['variants']) for r in res), 'single_tour_variants': sum(1 for r in res for v in r['variants'] if v['tours'] == 1),
+            'empty_variants': sum(1 for r in res for v in r['variants'] if v['tours'] == 0), 'canaries_rejected': len(cans), 'judge_states': jr.distinct}
+
+
 def run(pid, tier):
     t0 = time.time()
     d = common.workdir(pid + '-gsom')
@@ -63,9 +107,10 @@ def run(pid, tier):
         sc = by_c[r['c']]
         verdict.add('C19/%s/%s' % (name, sc['stream']), 'scenario %s (%s, cfg %s) step %d op %s: %s' % (r['c'], sc['stream'], json.dumps(sc['cfg']), r['step'], r['op'], (r['panic'] or json.dumps({k: r[k] for k in ('size', 'maxStored', 'nodeSize', 'pre', 'post')}))[:300]),
                     {'scenario': sc, 'transition': r})
+    weights = weights_part(pid, tier, d, verdict)
     rc = verdict.finish()
     ops = collections.Counter(r['op'] for r in recs)
-    cov = {'states': mc.distinct + jr.distinct, 'transitions': mc.generated + jr.generated, 'traces_validated_against_impl': len(cases), 'evaluations': len(recs),
+    cov = {'states': mc.distinct + jr.distinct + weights['judge_states'], 'transitions': mc.generated + jr.generated, 'traces_validated_against_impl': len(cases) + weights['problems'], 'evaluations': len(recs) + weights['variants'], 'vrp_weight_vectors': weights,
            'distinct_nontrivial': sum(1 for r in recs if r['post'] != r['pre']),
            'rule': 'one evaluation = one operation (creation, store_batch, smooth, compact) on a real network with the structure observed before and after and validated against Gsom.tla; non-trivial = operations that changed the set of coordinates',
            'samples': [{'scenario': by_c[b['c']], 'op': b['op'], 'pre': b['pre'], 'post': b['post']}], 'exhaustive': False, 'compaction_shapes_model_checked': mc.distinct,
